@@ -306,7 +306,7 @@ theorem SameRest.refl (a : Net) : SameRest a a := ⟨rfl, rfl, rfl, rfl⟩
 theorem SameRest.trans {a b c : Net} (h1 : SameRest a b) (h2 : SameRest b c) : SameRest a c :=
   ⟨h2.sendQ.trans h1.sendQ, h2.openQ.trans h1.openQ, h2.threaded.trans h1.threaded, h2.trace.trans h1.trace⟩
 
-theorem trRecvGo_spec (n0 : Net) (len : Nat) (endTime cn : Int) (acc : List Nat) (hacc : acc.length < len) :
+theorem trRecvGo_chunk_spec (n0 : Net) (len : Nat) (endTime cn : Int) (acc : List Nat) (hacc : acc.length < len) :
     ∀ (tape : List TapeEv) (now : Int), TapeOk tape →
     ∀ (rc : Int) (got : List Nat) (n' : Net) (stop : Bool),
       trRecvGo n0 (len - acc.length) (endTime - cn) tape now = (rc, got, n', stop) →
@@ -433,7 +433,7 @@ theorem recvAllLoop_spec (len : Nat) (endTime : Int) :
       rw [hr] at h
       simp only at h
       obtain ⟨hok1, hsr1, hlen1, hspec1⟩ :=
-        trRecvGo_spec n len endTime n.now acc hlt n.tape n.now hok rc1 got1 n1 stop1 hr
+        trRecvGo_chunk_spec n len endTime n.now acc hlt n.tape n.now hok rc1 got1 n1 stop1 hr
       by_cases hneg : rc1 < 0
       · rw [if_pos hneg] at h
         simp only [Prod.mk.injEq] at h
@@ -1113,7 +1113,7 @@ def recvAfterHdr (c : Conn) (n : Net) (own : Nat) (hdr : List Nat) : RecvRes × 
       | (_, n) => (.rc (-1), c, n)
     else recvBody c n own hdr
 
-theorem receivePdu_eq (c : Conn) (n : Net) (own : Nat) (timeout : Int) :
+theorem receivePdu_eq_stages (c : Conn) (n : Net) (own : Nat) (timeout : Int) :
     receivePdu c n own timeout =
       if c.state = .shutdown then (.rc (-1), c, n)
       else
@@ -1207,7 +1207,7 @@ theorem recvAfterHdr_sim {n n' : Net} (h : Sim n n') (c : Conn) (own : Nat) (hdr
 theorem receivePdu_sim {n n' : Net} (h : Sim n n') (c : Conn) (own : Nat) (timeout : Int)
     (res : RecvRes) (c1 : Conn) (m : Net) (hr : receivePdu c n own timeout = (res, c1, m)) :
     ∃ m', receivePdu c n' own timeout = (res, c1, m') ∧ Sim m m' := by
-  rw [receivePdu_eq] at hr ⊢
+  rw [receivePdu_eq_stages] at hr ⊢
   by_cases hs : c.state = .shutdown
   · rw [if_pos hs] at hr ⊢
     simp only [Prod.mk.injEq] at hr
@@ -1462,7 +1462,7 @@ theorem receivePdu_out (c : Conn) (n : Net) (own : Nat) (timeout : Int) (hok : T
      (∃ raw, res = .ok raw ∧ checkSize raw = true ∧ 8 ≤ lenOf raw ∧ lenOf raw ≤ Gen.RTR_MAX_PDU_LEN ∧
         raw.length = lenOf raw ∧ (verOf raw = c1.version ∨ typeOf raw = 10) ∧
         tapeBytes n.tape = raw ++ tapeBytes m.tape ∧ TapeOk m.tape)) := by
-  rw [receivePdu_eq] at hr
+  rw [receivePdu_eq_stages] at hr
   by_cases hs : c.state = .shutdown
   · rw [if_pos hs] at hr
     simp only [Prod.mk.injEq] at hr
@@ -1555,7 +1555,7 @@ theorem bad_length_rejected_quiet (c : Conn) (n : Net) (own : Nat) (timeout : In
     (receivePdu c n own timeout).1 = .rc (-1) := by
   rcases hr : receivePdu c n own timeout with ⟨res, c1, m⟩
   show res = .rc (-1)
-  rw [receivePdu_eq] at hr
+  rw [receivePdu_eq_stages] at hr
   by_cases hs : c.state = .shutdown
   · rw [if_pos hs] at hr
     simp only [Prod.mk.injEq] at hr
